@@ -47,7 +47,9 @@ BOUND = {"quick": 5, "thorough": 6}
 PREFIXES = ["%define ", "%import ", "%include ", "<a ", "</", "k ", "%"]
 POOL_QUICK = ["", "k v", "<a>", "</a>", "<a b/>", "%define n v", "k $n",
               "</b>", "<A B>", "(k) v", "%include f", "# c"]
+POOL_QUICK = POOL_QUICK + ["</a b>", "%include $(ZCV_EMPTY)"]
 POOL_THOROUGH = POOL_QUICK + [
+    "</a/>", "</a  >", "k $(ZCV_EMPTY)", "%import $(ZCV_EMPTY)",
     " ", "k", "K  v w ", "k (v)", "k(v", "<a  B >", "< a>", "<a b c>",
     "<a/>", "<a/ >", "</A >", "</ a>", "<a", "</a", "%define N", "%define n",
     "%define n $n", "%Define n v", "%import p", "%import", "%foo x", "k $",
@@ -263,7 +265,8 @@ def enum_lines(ctx, bound, salt):
 
 _RAND_LINES = [
     "k v", "key  some value ", "k", "a-b.c 1", "k $$x", "k ${n}y", "k $n",
-    "k $(ZCV_ENV)", "k (paren)", "k v (x) ", "# comment", "", "   ",
+    "k $(ZCV_ENV)", "k $(ZCV_EMPTY)", "%include $(ZCV_EMPTY)",
+    "%import $(ZCV_EMPTY)", "</a b>", "</sec-t x>", "k (paren)", "k v (x) ", "# comment", "", "   ",
     "\tk\tv", "k v", "%import some.pkg", "%define n v w",
     "%define M $n$n", "%include f.conf", "%define", "%import", "%bogus x",
     "(k v", ")", "k)", "<>", "< a>", "<a b c>", "<a (b)>", "</>", "k $",
@@ -322,6 +325,9 @@ def random_text(rng):
 
 
 def run_shard(ctx):
+    # an environment variable that is set but empty (a "%include $(VAR)"
+    # whose argument expands to nothing is still an %include)
+    os.environ["ZCV_EMPTY"] = ""
     bound = BOUND[ctx.tier]
     # (a) single lines
     for s in enum_lines(ctx, bound, 0):
@@ -331,6 +337,10 @@ def run_shard(ctx):
             check_text(ctx, pre + s, "prefixed")
     for s in enum_lines(ctx, bound - 2, 9):
         check_text(ctx, "<a>\n" + s + "\n</a>\n", "wrapped")
+    # closers of an open section with anything appended to the type
+    for s in enum_lines(ctx, bound - 2, 11):
+        check_text(ctx, "<a>\nk v\n</a" + s + "\n", "closer")
+        check_text(ctx, "<b>\n<a>\n</a" + s + "\n</b>\n", "closer")
     # (b) pooled sequences
     pool = POOL_QUICK if ctx.quick else POOL_THOROUGH
     maxlines = 3 if ctx.quick else 4
